@@ -234,7 +234,7 @@ RULES = [("probe", rule_probe), ("store", rule_store), ("writers", rule_writers)
 RULES += engine.movegen_premises(["check-mirror"])
 # a forced mate is found only if the search is the full-width search the property describes: no pruning beyond
 # alpha-beta / null-window re-search, the terminal scores, and a completed root search recording its result (C11 rules)
-RULES += engine.premise_rules("c11", ["exits", "root-result", "windows", "cut", "terminal", "ply-counter", "permutation", "legal-children"])
+RULES += engine.premise_rules("c11", ["exits", "root-result", "windows", "cut", "terminal", "ply-counter", "permutation", "legal-children", "move-counter"])
 # ... and the move found is announced only if the PV walk that runs before the announcement does not trip its own assertion
 # keys stand for positions only as far as comparing two keys compares the whole word (C05.key-identity)
 RULES += engine.premise_rules("c05", ["key-identity"])
